@@ -75,6 +75,12 @@ def check(ctx):
                 name, d2 = variants(rng, d, fname)
                 while any(name == n for n, _ in docset): name = "x" + name
                 docset.append((name, d2))
+            if ci == 2:
+                # a header that is long in bytes: a namespace table of several thousand entries stands in front of the Models element (about 400 KiB)
+                import random as _r
+                dl = docs.simple_doc(_r.Random(ci), "urn:verif:longheader", n_nodes=2)
+                dl["uris"] = list(dl.get("uris") or []) + ["urn:verif:filler:%06d:%s" % (i, "x" * 40) for i in range(5000)]
+                docset.append(("zz_long_header.xml", dl))
             shutil.rmtree(work, ignore_errors=True); os.makedirs(work)
             for name, d in docset:
                 path = os.path.join(work, name)
